@@ -715,7 +715,8 @@ func (vc *VC) contractCall(fr *frame, st *State, site ssa.Instruction, fc *FuncC
 		vc.guardCheckComp(fr, st, t.comp, t.idx, true, site)
 	}
 	oldHeap := st.heap.Clone()
-	allocates := len(fc.Allocates) > 0 || fc.Opaque
+	// an opaque callee may hand back objects it allocated: only then is the allocation set forgotten
+	allocates := len(fc.Allocates) > 0 || (fc.Opaque && typeHasRefs(resT))
 	for _, c := range fc.Ensures {
 		if exprMentionsCall(c.E, "fresh") {
 			allocates = true // a postcondition that promises a fresh object implies the callee allocates
@@ -1229,4 +1230,32 @@ func exprMentionsCall(x Expr, fn string) bool {
 	}
 	walk(x)
 	return found
+}
+
+
+// typeHasRefs reports whether a value of the type can carry a reference to a heap object.
+func typeHasRefs(t SType) bool {
+	switch t.K {
+	case KRef, KPtr, KMap, KChan, KSlice, KFunc:
+		return true
+	case KTuple:
+		for _, f := range t.Fields {
+			if typeHasRefs(f) {
+				return true
+			}
+		}
+	case KStruct:
+		if s, ok := structOf(t.Go); ok {
+			for i := 0; i < s.NumFields(); i++ {
+				if typeHasRefs(FromGo(s.Field(i).Type())) {
+					return true
+				}
+			}
+		}
+	case KArray:
+		if t.Elem != nil {
+			return typeHasRefs(*t.Elem)
+		}
+	}
+	return false
 }
